@@ -194,11 +194,11 @@ var plans = map[string]*plan{
 	"C12": {
 		Level: "exploration",
 		Rule: "client API vs scripted TCP peer on 127.0.0.1: batches of 4..15 Publish(QoS 0/1/2)/Subscribe/Unsubscribe/Ping calls with completion callbacks stamped from one global counter; the peer stamps every ack before writing it and acknowledges in orders {FIFO, reversed, random, delayed, PUBCOMP long after PUBREC, random with duplicated acks and acks for unused ids}; a peer PINGREQ->PINGRESP round trip is the barrier. Oracle: every callback fires exactly once, not before its terminal ack was sent, and has fired at the barrier once its ack and those of all earlier requests of the same kind were sent; QoS 0 completes before Publish returns; #PUBREL(id) = #PUBREC(id); in-flight identifiers non-zero and distinct. " +
-			"In every third script the yield hook parks the sending call between write and registration, the peer's ack is sent and the processor's proc.handled event awaited before the call is released (the 'ack processed before registered' schedule, forced). Broker-to-subscriber (synctest): 2..4 publishers reuse identifiers 1,2 at QoS 1/2 towards a subscriber that withholds acks; unacknowledged inbound PUBLISH identifiers must be non-zero and pairwise distinct, PUBREC answered by PUBREL with the same id. Bursts: after 1..11 completed requests of one kind, 17..46 requests of that kind are outstanding at once (the ack queue grows while wrapped) and are acknowledged in order with a barrier after each. Concurrent issuers: 2..4 library Clients in one process, each used by 4..8 goroutines issuing 150..400 id-less mixed requests each from a common start signal while the peers withhold all acknowledgements; the identifiers in flight per connection (600..3200) must be non-zero and pairwise distinct, then everything is acknowledged in a seeded order and every completion must have fired exactly once, not before its acknowledgement. Wrap-around: while one request of client A is unacknowledged another Client of the process issues id-less requests (about 65534) until the numbering it draws from stands just before A's identifier; A's next request must carry a different identifier and both must complete. distinct = (ack order, forced, request kinds, batch size) and b2s configurations.",
-		Quick:          []batchSpec{{Test: "TestC12Client", N: 8, Timeout: 15 * m}, {Test: "TestC12Broker", N: 4, Timeout: 10 * m}, {Test: "TestC12Burst", N: 4, Timeout: 10 * m}, {Test: "TestC12Concurrent", N: 4, Timeout: 15 * m}, {Test: "TestC12Wrap", N: 4, Timeout: 15 * m}},
-		Thorough:       []batchSpec{{Test: "TestC12Client", N: 16, Timeout: 60 * m}, {Test: "TestC12Broker", N: 8, Timeout: 30 * m}, {Test: "TestC12Burst", N: 8, Timeout: 30 * m}, {Test: "TestC12Concurrent", N: 8, Timeout: 60 * m}, {Test: "TestC12Wrap", N: 8, Timeout: 60 * m}, {Test: "TestC12Client", N: 8, Race: true, Timeout: 60 * m}},
+			"In every third script the yield hook parks the sending call between write and registration, the peer's ack is sent and the processor's proc.handled event awaited before the call is released (the 'ack processed before registered' schedule, forced). Broker-to-subscriber (synctest): 2..4 publishers reuse identifiers 1,2 at QoS 1/2 towards a subscriber that withholds acks; unacknowledged inbound PUBLISH identifiers must be non-zero and pairwise distinct, PUBREC answered by PUBREL with the same id. Bursts: after 1..11 completed requests of one kind, 17..46 requests of that kind are outstanding at once (the ack queue grows while wrapped) and are acknowledged in order with a barrier after each. Concurrent issuers: 2..4 library Clients in one process, each used by 4..8 goroutines issuing 150..400 id-less mixed requests each from a common start signal while the peers withhold all acknowledgements; the identifiers in flight per connection (600..3200) must be non-zero and pairwise distinct, then everything is acknowledged in a seeded order and every completion must have fired exactly once, not before its acknowledgement. Wrap-around: while one request of client A is unacknowledged another Client of the process issues id-less requests (about 65534) until the numbering it draws from stands just before A's identifier; A's next request must carry a different identifier and both must complete. Acknowledge-then-close: the peer writes the acknowledgements of 3..32 outstanding requests in one write and closes at once while the first completion dwells; at the client's teardown-finished event every completion must have fired once. distinct = (ack order, forced, request kinds, batch size) and b2s configurations.",
+		Quick:          []batchSpec{{Test: "TestC12Client", N: 8, Timeout: 15 * m}, {Test: "TestC12Broker", N: 4, Timeout: 10 * m}, {Test: "TestC12Burst", N: 4, Timeout: 10 * m}, {Test: "TestC12Concurrent", N: 4, Timeout: 15 * m}, {Test: "TestC12Wrap", N: 4, Timeout: 15 * m}, {Test: "TestC12AckThenClose", N: 2, Timeout: 10 * m}},
+		Thorough:       []batchSpec{{Test: "TestC12Client", N: 16, Timeout: 60 * m}, {Test: "TestC12Broker", N: 8, Timeout: 30 * m}, {Test: "TestC12Burst", N: 8, Timeout: 30 * m}, {Test: "TestC12Concurrent", N: 8, Timeout: 60 * m}, {Test: "TestC12Wrap", N: 8, Timeout: 60 * m}, {Test: "TestC12AckThenClose", N: 4, Timeout: 30 * m}, {Test: "TestC12Client", N: 8, Race: true, Timeout: 60 * m}},
 		EvalStats:      []string{"c12.scripts", "c12.b2s_scenarios"},
-		Floors:         map[string]int64{"c12.scripts": 340, "c12.forced_interleavings": 100, "c12.requests": 2500, "c12.b2s_scenarios": 190, "c12.b2s_inflight_checked": 300, "c12.bursts": 44, "c12.conc_cases": 20, "c12.wrap_cases": 4, "classes": 60},
+		Floors:         map[string]int64{"c12.scripts": 340, "c12.forced_interleavings": 100, "c12.requests": 2500, "c12.b2s_scenarios": 190, "c12.b2s_inflight_checked": 300, "c12.bursts": 44, "c12.conc_cases": 20, "c12.wrap_cases": 4, "c12.ack_then_close_cases": 55, "classes": 60},
 		FloorsThorough: map[string]int64{"c12.scripts": 7000, "c12.forced_interleavings": 2000, "classes": 100},
 		Assumptions:    []string{"the client's processor handles inbound packets sequentially, so a PINGREQ/PINGRESP round trip is a barrier", "the forced interleaving parks a goroutine that holds no library lock (legal schedule)"},
 	},
@@ -216,11 +216,11 @@ var plans = map[string]*plan{
 	"C16": {
 		Level: "fault_enumeration",
 		Rule: "teardown matrix in a synctest bubble (net.Pipe, 16 KiB rings): cause {DISCONNECT, abrupt close, keep-alive expiry in virtual time, protocol error, Server.Close} x buffer condition {idle; own outbound ring full because the subscriber stopped reading and the publisher's processor is parked in its WriteWait; publisher's inbound ring full as well; cross-blocked pair publishing to each other, both not reading; the connection's own inbound ring holding an incomplete message almost as large as the ring behind a small one (less than one read block free)} x order in which the two connections end x will present/absent x CleanSession 0/1 (200 cells), plus 32 pipelined cells: the publisher's processor is parked on a delivery to a subscriber that stopped reading (decided on the processor's handled-packet events), the packet right behind the blocked PUBLISH is a DISCONNECT or a malformed packet, traffic of four packet sizes behind it keeps the publisher's inbound ring full and its receiver parked for space, then the subscriber reads again and the publisher's teardown must finish at the next quiescence. " +
-			"Oracle once every connection that had stopped reading has been ended: exactly one teardown-finished event per connection, wills seen by a witness exactly once unless the end was a DISCONNECT, a probe publish to the dead client's filter is acknowledged and reaches nobody, a clean session is gone, Server.Close returns, and a goroutine snapshot shows no frame of the library. A parked Server.Close or leftover goroutine is reported with its stack; a mutex deadlock (not durably blocked, so synctest.Wait cannot return) is caught by the process-wide deadlock watchdog. Window cells (real time): the yield hook delays a goroutine of the victim connection between its done-check and its Cond.Wait on the inbound ring (processor), the outbound ring (sender) or the outbound ring seen from a publisher blocked for space, and the connection is ended (abrupt / DISCONNECT / Server.Close / keep-alive expiry) inside that window; teardown must still finish (stop.done event), decided by goroutine state otherwise. Close race (real time): 4..12 goroutines keep connecting (all dials issued before Close is called) while Server.Close runs at a seeded instant; after Close returned and with the clients idle, every connection that was answered with CONNACK 0 must have been ended by the broker and no library goroutine may remain (goroutine snapshots). distinct = cells.",
-		Quick:          []batchSpec{{Test: "TestC16", N: 8, Timeout: 15 * m}, {Test: "TestC16Window", N: 3, Timeout: 15 * m}, {Test: "TestC16CloseRace", N: 4, Timeout: 15 * m}},
-		Thorough:       []batchSpec{{Test: "TestC16", N: 16, Timeout: 30 * m}, {Test: "TestC16Window", N: 6, Timeout: 30 * m}, {Test: "TestC16CloseRace", N: 8, Timeout: 60 * m}},
+			"Oracle once every connection that had stopped reading has been ended: exactly one teardown-finished event per connection, wills seen by a witness exactly once unless the end was a DISCONNECT, a probe publish to the dead client's filter is acknowledged and reaches nobody, a clean session is gone, Server.Close returns, and a goroutine snapshot shows no frame of the library. A parked Server.Close or leftover goroutine is reported with its stack; a mutex deadlock (not durably blocked, so synctest.Wait cannot return) is caught by the process-wide deadlock watchdog. Window cells (real time): the yield hook delays a goroutine of the victim connection between its done-check and its Cond.Wait on the inbound ring (processor), the outbound ring (sender) or the outbound ring seen from a publisher blocked for space, and the connection is ended (abrupt / DISCONNECT / Server.Close / keep-alive expiry) inside that window; teardown must still finish (stop.done event), decided by goroutine state otherwise. Close race (real time): 4..12 goroutines keep connecting (all dials issued before Close is called) while Server.Close runs at a seeded instant; after Close returned and with the clients idle, every connection that was answered with CONNACK 0 must have been ended by the broker and no library goroutine may remain (goroutine snapshots). Teardown under delivery (shared with C05, real time): 2..6 publishers held up on a subscriber that stopped reading; every other round a second subscriber behind it in the fan-out leaves in good order first (its teardown has finished when the deliveries reach it), then the stalled one is cut; all publishers must keep answering, and at the end every publisher's teardown finishes, Server.Close returns and no library goroutine remains. distinct = cells.",
+		Quick:          []batchSpec{{Test: "TestC16", N: 8, Timeout: 15 * m}, {Test: "TestC16Window", N: 3, Timeout: 15 * m}, {Test: "TestC16CloseRace", N: 4, Timeout: 15 * m}, {Test: "TestC05Teardown", N: 4, Timeout: 15 * m}},
+		Thorough:       []batchSpec{{Test: "TestC16", N: 16, Timeout: 30 * m}, {Test: "TestC16Window", N: 6, Timeout: 30 * m}, {Test: "TestC16CloseRace", N: 8, Timeout: 60 * m}, {Test: "TestC05Teardown", N: 8, Timeout: 60 * m}},
 		EvalStats:      []string{"c16.cells"},
-		Floors:         map[string]int64{"c16.cells": 232, "c16.pipelined_cells": 32, "c16.window_cells": 30, "c16.closerace_cases": 190, "c16.closerace_accepted": 1000, "classes": 235},
+		Floors:         map[string]int64{"c16.cells": 232, "c16.pipelined_cells": 32, "c16.window_cells": 30, "c16.closerace_cases": 190, "c16.closerace_accepted": 1000, "c05.teardown_second_subscriber_gone_first": 60, "classes": 235},
 		FloorsThorough: map[string]int64{"c16.cells": 928, "c16.pipelined_cells": 128, "c16.window_cells": 200, "classes": 235},
 		Exhaustive:     func(r *result) bool { return r.stats["c16.cells"] >= 232 },
 		Assumptions:    []string{"'bounded time' is decided at synctest quiescence (every goroutine durably blocked) plus goroutine-state inspection, not by a deadline", "read/write errors as a cause are exercised in C09 (chaos conn) and C05"},
@@ -254,7 +254,7 @@ var plans = map[string]*plan{
 	"C05": {
 		Level: "fault_enumeration",
 		Rule: "the broker runs as separate OS processes (real ListenAndServe on 127.0.0.1, 16 KiB rings, connect timeout 1 s); a witness publisher/subscriber pair with numbered CRC payloads and an idle observer stay connected while attacker connections run: pre-CONNECT (every prefix of a valid CONNECT then close, every byte of it set to 0xff/0x00/+1, every wrong first packet type, unterminated / maximal / larger-than-ring remaining lengths, random bytes, silence until the connect timeout), post-CONNECT (the C04 mutation corpus of all 14 packet types, PUBLISH packets from 8 KiB-16 to 1 MiB, packets a client must not send), disconnects (close at sampled byte offsets of SUBSCRIBE and QoS 2 PUBLISH, close of a subscriber of the witness topic at seeded delays while 40 witness messages are flowing to it, half-close, a subscriber that stops reading then closes, a subscriber with a 4 KiB receive buffer that stops reading while a bystander floods it until the bystander's own PINGREQs go unanswered and is then cut - the bystander must come back). " +
-			"After every attack: the broker process is alive (exit status and stderr captured), witness and observer connections are open, and the witness subscriber received exactly the next witness messages in order and nothing else. Teardown under delivery (in-process broker, net.Pipe, 16 KiB rings): 2..6 publishers flood a subscriber that has stopped reading until their own PINGREQs go unanswered, the subscriber is cut at a seeded delay, 6..11 rounds per case; every publisher must stay connected and answer, and a marker each publishes afterwards must reach a witness exactly once. distinct = (attack class, variant).",
+			"After every attack: the broker process is alive (exit status and stderr captured), witness and observer connections are open, and the witness subscriber received exactly the next witness messages in order and nothing else. Teardown under delivery (in-process broker, net.Pipe, 16 KiB rings): 2..6 publishers flood a subscriber that has stopped reading until their own PINGREQs go unanswered, the subscriber is cut at a seeded delay, 6..11 rounds per case; every publisher must stay connected and answer, and a marker each publishes afterwards must reach a witness exactly once (every other round a second subscriber behind the stalled one has left in good order before the cut). Also: publishes and wills on topic names with a '$'-leading level by a client that holds a subscription and then leaves. distinct = (attack class, variant).",
 		Quick:          []batchSpec{{Test: "TestC05", N: 8, Timeout: 20 * m, Weight: 2}, {Test: "TestC05Teardown", N: 4, Timeout: 15 * m}},
 		Thorough:       []batchSpec{{Test: "TestC05", N: 16, Timeout: 90 * m}, {Test: "TestC05Teardown", N: 8, Timeout: 60 * m}},
 		EvalStats:      []string{"c05.attacks"},
